@@ -13,6 +13,7 @@ import (
 	"strconv"
 	"strings"
 	"sync"
+	"sync/atomic"
 	"testing"
 	"time"
 )
@@ -502,6 +503,17 @@ func (r *Run) Finish() {
 		"known_finding_hits": r.knownHits, "fenced": r.fenced, "samples": samples,
 		"extra": r.extra, "inconclusive": r.incon, "notes": r.notes,
 		"violations": len(r.violations), "wall_s": time.Since(r.start).Seconds(),
+	}
+	if atomic.LoadInt64(&rapidDraws) > 0 {
+		// part of the run was drawn at random: "exhaustive" is claimed only for runs that are enumeration throughout
+		if r.exhaustive != nil && *r.exhaustive {
+			if r.extra == nil {
+				r.extra = map[string]interface{}{}
+			}
+			r.extra["enumerated_part_complete"] = true
+		}
+		f := false
+		r.exhaustive = &f
 	}
 	if r.exhaustive != nil {
 		frag["exhaustive"] = *r.exhaustive
